@@ -406,6 +406,12 @@ type Specs struct {
 }
 
 func (s *Specs) contractFor(pkgPath, fn string) *Contract {
+	// a scenario named @callsite is the one applied at call sites
+	for _, c := range s.Contracts {
+		if strings.HasSuffix(pkgPath, c.Pkg) && c.target() == fn && strings.HasSuffix(c.Func, "@callsite") {
+			return c
+		}
+	}
 	for _, c := range s.Contracts {
 		if strings.HasSuffix(pkgPath, c.Pkg) && c.target() == fn && !c.sweepOnly() {
 			return c
